@@ -26,6 +26,10 @@ PACK = [
     ("eq-peek-back", "C10", CQ, r"if let Some\(\(_, time, _\)\) = self\.zero_event_bucket\.front\(\) \{", "if let Some((_, time, _)) = self.zero_event_bucket.back() {", "keep"),  # all entries of the zero bucket carry the same time
     ("mt-depth-ge", "C12", MT, r"self\.modules\[pos\]\.path\.len\(\) > parent_depth", "self.modules[pos].path.len() >= parent_depth", "kill"),
     ("mt-no-skip", "C12", MT, r"                pos \+= 1;\n\n                // \(iter as long", "                pos += 0;\n\n                // (iter as long", "kill"),
+    ("lc-end-early-return", "C12", MT, r"if !rt\.app\.error\.is_empty\(\) \{\n            return Err\(error\);", "if !error.is_empty() {\n            return Err(error);", "kill"),
+    ("lc-stage-le", "C12", MT, r"if stage < module\.num_sim_start_stages\(\) \{", "if stage <= module.num_sim_start_stages() {", "kill"),
+    ("lc-skip-stage0", "C12", MT, r"for stage in 0\.\.max_stage \{", "for stage in 1..max_stage {", "kill"),
+    ("eq-lc-hoist-n", "C12", MT, r"(                // Use cloned handles to appease the brwchk\n)                if stage < module\.num_sim_start_stages\(\) \{", r"\1                let declared = module.num_sim_start_stages();\n                if stage < declared {", "keep"),
     ("eq-mt-position", "C12", MT, r"\.rposition\(\|m\| m\.path == parent\)", ".position(|m| m.path == parent)", "keep"),  # paths are unique
     ("es-start-ignored", "C02", ES, r"start_time: options\.start_time,", "start_time: SimTime::MIN,", "kill"),
     ("lim-count-ge", "C11", LIM, r"Self::EventCount\(e\) => itr_count > \*e,", "Self::EventCount(e) => itr_count >= *e,", "kill"),
